@@ -42,6 +42,8 @@ def run(ctx):
     from . import C15
     ctx.do(C15.rule_truncate, rule_id="C01.timestamp-pipeline")
     ctx.do(C15.rule_property_forward, rule_id="C01.timestamp-pipeline")
+    from .pitfalls import rule_isdigit_int
+    ctx.do(rule_isdigit_int, "C01.pretty-sort-key", ("stix2.serialization", "stix2.base"))
     from . import C02
     ctx.do(C02.rule_init_loops, rule_id="C01.constructor-loops-complete")
     from . import C15 as _C15
@@ -561,6 +563,44 @@ def rule_order_and_precision(ctx):
         it = defs[0] if len(defs) == 1 else None
     okc = isinstance(it, ast.Call) and dotted(it.func) in ("itertools.chain", "chain") and len(it.args) >= 2 \
         and norm(it.args[0]) == "self._properties" and isinstance(it.args[-1], ast.Call) and call_simple_name(it.args[-1]) == "sorted"
+    # every element of the chain has a DETERMINISTIC order: a set expression (`a.keys() | b.keys() - c`, set(...)) iterates in
+    # hash order, which depends on PYTHONHASHSEED and on insertion history -- the same content then serialises in different
+    # orders (text not reproduced byte for byte; extension properties not in definition order)
+    if okc:
+        g_ = cfg_of(init)
+        rd_ = ReachingDefs(g_, init.all_param_names())
+        unordered = []
+        for a_ in it.args[1:-1]:
+            exprs = [a_]
+            if isinstance(a_, ast.Name):
+                exprs = [v for _dn, v in rd_.reaching(g_.node_of(loops[0]) if isinstance(loops[0].iter, ast.Call) else g_.node_of(
+                    next(x for x in body_walk(init.node) if isinstance(x, ast.Assign) and x.value is it)), a_.id) if isinstance(v, ast.AST)]
+            for e_ in exprs:
+                for sub_ in ast.walk(e_):
+                    is_set = isinstance(sub_, (ast.Set, ast.SetComp)) or (
+                        isinstance(sub_, ast.BinOp) and isinstance(sub_.op, (ast.BitOr, ast.Sub, ast.BitAnd))) or (
+                        isinstance(sub_, ast.Call) and call_simple_name(sub_) in ("set", "frozenset"))
+                    if not is_set:
+                        continue
+                    # a set that only serves as a membership test (`k not in {...}`) or is sorted orders nothing
+                    par_ = getattr(sub_, "parent", None)
+                    if isinstance(par_, ast.Compare) and sub_ in par_.comparators:
+                        continue
+                    anc_ = par_
+                    sorted_ = False
+                    while anc_ is not None and anc_ is not e_ and not isinstance(anc_, ast.stmt):
+                        if isinstance(anc_, ast.Call) and call_simple_name(anc_) == "sorted":
+                            sorted_ = True
+                        anc_ = getattr(anc_, "parent", None)
+                    if not sorted_:
+                        unordered.append(sub_)
+                        break
+        run.check(not unordered, "C01.spec-order", key(init.module.relpath, init.qualname, "construction-order-deterministic"),
+                  "part of the order in which the constructor fills the object is the iteration order of a SET: it depends on the "
+                  "hash seed and on insertion history, so the same content is serialised in different orders (re-serialisation "
+                  "does not reproduce the text; toplevel-extension properties are not listed in definition order)",
+                  file=init.module.relpath, line=unordered[0].lineno if unordered else loops[0].lineno, function=init.qualname,
+                  expected="lists / dict views in definition order", found=[short(u_) for u_ in unordered])
     run.check(okc, "C01.spec-order", key(init.module.relpath, init.qualname, "construction-order"),
               "the constructor does not fill the object in the order <specification table>, <top-level extension properties>, "
               "<custom properties, sorted>: output no longer lists the properties in specification order (a ChainMap / set / "
